@@ -144,37 +144,41 @@ func (_this *Reader) ReadFloat64() float64 {
 }
 
 func (_this *Reader) ReadDecimalFloat() (compact_float.DFloat, *apd.Decimal) {
-	value, bigValue, _, err := compact_float.DecodeWithByteBuffer(_this.reader, _this.buffer)
+	value, bigValue, bytesDecoded, err := compact_float.DecodeWithByteBuffer(_this.reader, _this.buffer)
 	if err != nil {
 		_this.unexpectedError(err)
 	}
+	_this.markBytesRead(bytesDecoded)
 
 	return value, bigValue
 }
 
 func (_this *Reader) ReadDate() compact_time.Time {
-	value, _, err := compact_time.DecodeDateWithBuffer(_this.reader, _this.buffer)
+	value, bytesDecoded, err := compact_time.DecodeDateWithBuffer(_this.reader, _this.buffer)
 	if err != nil {
 		_this.unexpectedError(err)
 	}
+	_this.markBytesRead(bytesDecoded)
 
 	return value
 }
 
 func (_this *Reader) ReadTime() compact_time.Time {
-	value, _, err := compact_time.DecodeTimeWithBuffer(_this.reader, _this.buffer)
+	value, bytesDecoded, err := compact_time.DecodeTimeWithBuffer(_this.reader, _this.buffer)
 	if err != nil {
 		_this.unexpectedError(err)
 	}
+	_this.markBytesRead(bytesDecoded)
 
 	return value
 }
 
 func (_this *Reader) ReadTimestamp() compact_time.Time {
-	value, _, err := compact_time.DecodeTimestampWithBuffer(_this.reader, _this.buffer)
+	value, bytesDecoded, err := compact_time.DecodeTimestampWithBuffer(_this.reader, _this.buffer)
 	if err != nil {
 		_this.unexpectedError(err)
 	}
+	_this.markBytesRead(bytesDecoded)
 
 	return value
 }
@@ -214,10 +218,11 @@ func (_this *Reader) markBytesRead(byteCount int) {
 }
 
 func (_this *Reader) readSmallULEB128(name string, maxValue uint64) uint64 {
-	asUint, asBig, _, err := uleb128.DecodeWithByteBuffer(_this.reader, _this.buffer)
+	asUint, asBig, bytesDecoded, err := uleb128.DecodeWithByteBuffer(_this.reader, _this.buffer)
 	if err != nil {
 		_this.unexpectedError(err)
 	}
+	_this.markBytesRead(bytesDecoded)
 
 	if asBig != nil {
 		_this.errorf("%v: %v is too big (max allowed value = %v)", asBig, name, maxValue)
